@@ -832,7 +832,7 @@ def km2(P, C):
 def km4(P, C):
     C.rule("KM-4", "the key store keeps insertion order: remove_key copies the surviving entries in ascending source order into consecutive slots "
            "(one store new[k++] = aux[j] in a counting loop over all j, guarded by j != removed index), write_key copies slot j to slot j for "
-           "every j and puts the new entry into the last slot; no routine swaps or moves entries inside the store", floor=4)
+           "every j and puts the new entry into the last slot; no routine swaps or moves entries inside the store; an overwrite replaces the value in the entry the search found", floor=5)
     for name in ("remove_key", "write_key"):
         fs_ = [g for g in P.fns(name) if g.unit == "driver" and "splinetable<" in g.qname]
         if not fs_:
@@ -899,6 +899,28 @@ def km4(P, C):
             ok = ok and len(last) == 1
             det = "one bulk copy of all entries to the same slots, new entry into slot naux: %s" % ok
         C.ob("KM-4", name, "order-preserving-copy", ok, f.loc(moves[0]) if moves else f.where(), det)
+        if name == "write_key":
+            # an overwrite keeps the key where it is: the new value goes into the value slot of the entry the search found, under the
+            # test that the search found one, and write_key hands the store to no other member that restructures it (removing the key
+            # and appending it again moves it to the end — and loses it when the append fails)
+            others = [y for y, cal in f.calls() if cal and cal.get("cls") and cal.get("cls") == f.cls and not cal.get("isConst", False) and
+                      not cal.get("isStatic") and cal.get("mkind") not in ("ctor",) and cal.get("name") not in ("allocate", "deallocate")]
+            slot = []
+            for y in f.walk():
+                ap = ts.assign_parts(f, y)
+                if not ap or ap[1] is None or f.nodes[y].get("op") != "=":
+                    continue
+                t_, o_ = f.alpha(y)
+                if t_.replace(" ", "") == "(aux[v0][1]=v1)":
+                    g = [a_ for a_ in f.ancestors(y) if f.k(a_) == "IfStmt"]
+                    found = any(f.alpha(f.nodes[a_]["cond"])[0].replace(" ", "") in ("(v0!=naux)", "(v0<naux)", "(naux!=v0)") and
+                                f.alpha(f.nodes[a_]["cond"])[1][:1] == o_[:1] and f.nodes[a_]["then"] in [y] + list(f.ancestors(y)) for a_ in g)
+                    if found:
+                        slot.append(y)
+            ok2 = not others and len(slot) == 1
+            C.ob("KM-4", name, "overwrite-keeps-position", ok2, f.loc(others[0]) if others else (f.loc(slot[0]) if slot else f.where()),
+                 "the value of an existing key is replaced in its entry (aux[i][1] = new value under `i != naux`: %d store(s)); members that "
+                 "restructure the store called from write_key: %s" % (len(slot), [f.nodes[y]["callee"]["name"] for y in others] or "none"))
 
 
 def uw_canonical(f, L):
